@@ -886,6 +886,9 @@ def ownership(ctx, add, label, rt, site, opname):
     # elements of the old block: relocated prefix [0,k) + destroyed [k,S)
     k = Lin.const(0)
     if isinstance(relocated, list):
+        if any(isinstance(p[3], Unknown) or (isinstance(p[3], Bytes) and isinstance(p[3].n, Unknown)) or _UNK.search(str(p[3])) for p in relocated):
+            add('RB.8', None, f'{label} {rt}: every element of the old block is relocated or destroyed before the block is freed', site, 'the number of elements a memcpy relocates is a value the evaluator does not follow', key=f'RB.8|{opname}|account')
+            return
         for p in relocated:
             if isinstance(p[3], Bytes):
                 kk = p[3].n if isinstance(p[3].n, Lin) else None
@@ -1091,6 +1094,8 @@ def op_resize(ctx, add, label, rt, site):
         if verdict == 'holds': okc = True
         elif verdict == 'refuted': why += f' — e.g. head {w["P"]}, size {w["S"]}, capacity {w["C"]}, new capacity {w["p:newCapacity"]}: the new block does not hold logical [0, {min(w["S"], w["p:newCapacity"])}) in order'
         else: okc = None; why = 'the memcpy runs could not be evaluated: ' + why
+    if okc is False and mc and not all(isinstance(p[3], Bytes) and isinstance(p[1], Ptr) and isinstance(p[2], Ptr) for n, p in mc):
+        okc = None; why = 'a memcpy operand is a value the evaluator does not follow: ' + why
     add('RB.4', okc, f'{label} {rt}: the first {k} logical elements are copied in order', mc[0][0].shortloc() if mc else site, '' if okc else why, key='RB.4|copy-order')
     ownership(ctx, add, label, rt, site, 'resize')
     if ctx.is_class:
